@@ -161,7 +161,7 @@ def run(tier, seed):
     res.coverage.update({
         "evaluations": summary["casts"] + summary["executions"] + summary["real_play_commands"],
         "distinct_nontrivial": summary["distinct_nontrivial"],
-        "rule": "a case is a generated cast (1-3 roles, `extends`, action names incl. ones ending in s / h / sh such as flush, stats, push, pus, hash, ssh, 1-4 cast lines (actor names incl. ones with symbol characters such as c©t, x±y and, in a fifth of the casts, a pair that differs in a symbol only: till€ / till£), single and `name* play N` with N in 1..5 and sometimes 9..12, the count sometimes written with leading zeros (010 = ten, 0012, 09) directly or through a `parameter`, plural role names, `with` clauses of 1-3 assignments incl. ones overriding i/HOME/TMPDIR and ones with $references; 1 in 15 deliberately invalid) written by the real prepareDirs under an absolute / relative / nested / '.' output directory (names with blanks and + , = @ % : and non-ASCII letters), plus up to 7 executions of its scripts by bash from a foreign directory and environment (stale values of i, HOME, TMPDIR and of with-variables planted), up to 3 of them through another actor's script. A quarter of the with-values are quoted (double or single quotes) with runs of blanks and tabs inside (the command must see them byte for byte), some with a $reference between double quotes; one clause in eight ends in $(date +%s), $((26257+i)) or an array (1 2 3), one in forty is the parenthesised form ( a=1 b=2 ) (a subshell: pinned as text): no prediction by the mini-shell for those, but the command must run and see the variables. On top, 6 (thorough 40) configurations are PLAYED by the real CLI (single + multi-actor line, with clauses, every action / spotlight / cleanup command is the probe): the state each command sees under the real runner is compared with the same model and oracle, and a spotlight must have the play's pipe on both descriptors with one stdout line and one stderr line reaching the signal filters (csv rows). distinct_nontrivial counts distinct executions (configuration, run directory, script, path of invocation, caller environment) that are nested, or of an actor with a with-clause, or of a member of a multi-actor line.",
+        "rule": "a case is a generated cast (1-3 roles, `extends`, action names incl. ones ending in s / h / sh such as flush, stats, push, pus, hash, ssh, 1-4 cast lines (actor names incl. ones with symbol characters such as c©t, x±y and, in a fifth of the casts, a pair that differs in a symbol only: till€ / till£), single and `name* play N` with N in 1..5 and sometimes 9..12, the count sometimes written with leading zeros (010 = ten, 0012, 09) directly or through a `parameter`, plural role names, `with` clauses of 1-3 assignments incl. ones overriding i/HOME/TMPDIR and ones with $references; 1 in 15 deliberately invalid) written by the real prepareDirs under an absolute / relative / nested / '.' output directory (names with blanks and + , = @ % : and non-ASCII letters), plus up to 7 executions of its scripts by bash from a foreign directory and environment (stale values of i, HOME, TMPDIR and of with-variables planted), up to 3 of them through another actor's script. A quarter of the with-values are quoted (double or single quotes) with runs of blanks and tabs and ` #`, `#` inside (the command must see them byte for byte), some with a $reference between double quotes; one clause in eight ends in $(date +%s), $((26257+i)) or an array (1 2 3), one in forty is the parenthesised form ( a=1 b=2 ) (a subshell: pinned as text): no prediction by the mini-shell for those, but the command must run and see the variables. On top, 6 (thorough 40) configurations are PLAYED by the real CLI (single + multi-actor line, with clauses, every action / spotlight / cleanup command is the probe): the state each command sees under the real runner is compared with the same model and oracle, and a spotlight must have the play's pipe on both descriptors with one stdout line and one stderr line reaching the signal filters (csv rows). distinct_nontrivial counts distinct executions (configuration, run directory, script, path of invocation, caller environment) that are nested, or of an actor with a with-clause, or of a member of a multi-actor line.",
         "samples": summary["samples"],
         "distribution": {k: summary[k] for k in summary if k not in ("samples", "shard_sizes", "distinct_nontrivial")},
         "traces_validated_against_impl": summary["executions"],
